@@ -36,3 +36,10 @@ Theorem C17_neighbor_weights_order_independent :
     neighbor_weights_into g u nbrs1 node2com towards acc =
     neighbor_weights_into g u nbrs2 node2com towards acc.
 Proof. exact neighbor_weights_order_independent. Qed.
+
+(* the order in which generate_graph accumulates the aggregated edge weights does not depend on
+   the iteration order of the edge HashMap (the working graphs are single-edge: distinct pairs) *)
+Theorem C17_edge_order_canonical : forall l1 l2 : list ledge,
+  Permutation l1 l2 -> NoDup (map (fun e => (eu e, ev e)) l1) ->
+  sort_by edge_ltb l1 = sort_by edge_ltb l2.
+Proof. exact sort_edges_perm. Qed.
